@@ -14,6 +14,8 @@ def corpus(ctx):
     n = 60 if ctx.tier == "quick" else 600
     for k in range(n):
         progs["gen_%d_%d" % (ctx.seed, k)] = Gen(ctx.seed * 1000003 + k).program()
+    for k in range(n // 3):                # generator programs that also use HashMap values
+        progs["genmap_%d_%d" % (ctx.seed, k)] = Gen(ctx.seed * 1000003 + 500000 + k, features={"maps": True}).program()
     return progs
 
 
